@@ -100,7 +100,13 @@ func (r Retry) retryIn() time.Duration {
 	// Get a random value from the range [backoff - delta, backoff + delta].
 	// The formula used below has a +1 because time.Duration is an int64, and the
 	// conversion floors the float64.
-	return time.Duration(backoff - delta + rand.Float64()*(2*delta+1))
+	d := backoff - delta + rand.Float64()*(2*delta+1)
+	if d >= math.MaxInt64 {
+		// The conversion of an out-of-range float64 is not defined
+		// (negative on amd64: the attempt would come at once).
+		return math.MaxInt64
+	}
+	return time.Duration(d)
 }
 
 // Next returns whether the retry loop should continue, and blocks for the
